@@ -570,14 +570,14 @@ func checkC01(e *core.Env) {
 
 	// several large messages in a row (the generated scripts above carry at most one per direction): each frame
 	// is still being decoded by the receiver while the transport already reads the next one
-	e.Cases("consecutive-large", e.N(12, 80), func(i int, r *rand.Rand) {
+	e.Cases("consecutive-large", e.N(24, 120), func(i int, r *rand.Rand) {
 		kind := Kind(1 + i%3)
 		for _, c := range cs.list {
 			sc := genDeliveryScript(r, kind, c.HTTP, false)
 			sc.MutateAfterSend = false
 			if kind.ServerStreams() {
 				// at least four replies, sent back to back at the end
-				for n := 0; n < 4; n++ {
+				for n := 0; n < 8; n++ {
 					sc.Handler = append(sc.Handler, Op{Op: "send"})
 				}
 			}
